@@ -79,7 +79,8 @@ fn defined_dr(region: &region::Configuration, dr: u8) -> bool {
 }
 
 fn macs_step(ri: usize, cids: &[u8]) {
-    let r = rt::REGIONS[ri];
+    crate::mac::verif_kani_lorawan_device_mac_common::vinit();
+    let r = rt::region_ut(ri);
     let fixed = rt::is_fixed(r);
     let mut region = rt::any_region(r);
     let mut cfg = mc::any_configuration();
@@ -115,8 +116,8 @@ fn macs_step(ri: usize, cids: &[u8]) {
     s.handle_downlink_macs(&mut cfg, &mut region, parse_downlink_mac_commands(&data[..n]), snr);
 
     // ---- C04: the state still satisfies the invariants the transmit path relies on ----------
-    assert!(mc::cfg_inv(&cfg, &region), "C04/C08/C09: MAC configuration invariant (defined data rate, legal offsets/power) broken by a MAC command");
-    assert!(rt::inv(&mut region, cfg.data_rate), "C04/C09: channel plan left without a usable channel for the current data rate (the device can no longer transmit)");
+    crate::vcheck!(mc::cfg_inv(&cfg, &region), "C04/C08/C09: MAC configuration invariant (defined data rate, legal offsets/power) broken by a MAC command");
+    crate::vcheck!(rt::inv(&mut region, cfg.data_rate), "C04/C09: channel plan left without a usable channel for the current data rate (the device can no longer transmit)");
 
     // ---- C08: answers and effects --------------------------------------------------------------
     let ans = uh::pending(&s.uplink);
@@ -176,11 +177,11 @@ fn macs_step(ri: usize, cids: &[u8]) {
                 let mut t = 0;
                 while t < k {
                     if room && a + 2 <= 15 && a + 2 <= ans.len() {
-                        assert!(ans[a] == 0x03, "C08: LinkADRAns expected at this position (one answer per request, in request order)");
+                        crate::vcheck!(ans[a] == 0x03, "C08: LinkADRAns expected at this position (one answer per request, in request order)");
                         if t == 0 {
                             status = ans[a + 1];
                         } else {
-                            assert!(ans[a + 1] == status, "C08: a LinkADRReq block is answered with identical copies");
+                            crate::vcheck!(ans[a + 1] == status, "C08: a LinkADRReq block is answered with identical copies");
                         }
                         a += 2;
                     } else {
@@ -189,15 +190,15 @@ fn macs_step(ri: usize, cids: &[u8]) {
                     t += 1;
                 }
                 if room {
-                    assert!(status & 0xF8 == 0, "C08: LinkADRAns RFU bits");
+                    crate::vcheck!(status & 0xF8 == 0, "C08: LinkADRAns RFU bits");
                     if must_nak_mask {
-                        assert!(status & 1 == 0, "C08: LinkADRReq with an RFU ChMaskCntl or a mask leaving no usable channel must be rejected");
+                        crate::vcheck!(status & 1 == 0, "C08: LinkADRReq with an RFU ChMaskCntl or a mask leaving no usable channel must be rejected");
                     }
                     if !dr_valid {
-                        assert!(status & 2 == 0, "C08: LinkADRReq with an undefined data rate must be rejected");
+                        crate::vcheck!(status & 2 == 0, "C08: LinkADRReq with an undefined data rate must be rejected");
                     }
                     if !pw_valid {
-                        assert!(status & 4 == 0, "C08: LinkADRReq with an undefined TX power must be rejected");
+                        crate::vcheck!(status & 4 == 0, "C08: LinkADRReq with an undefined TX power must be rejected");
                     }
                     if status == 7 {
                         exp_cfg.data_rate = DR::from(new_dr);
@@ -217,17 +218,17 @@ fn macs_step(ri: usize, cids: &[u8]) {
                 let r2 = dls & 0x0f;
                 let freq = (data[pl + 1] as u32 | (data[pl + 2] as u32) << 8 | (data[pl + 3] as u32) << 16) * 100;
                 if room && a + 2 <= 15 && a + 2 <= ans.len() {
-                    assert!(ans[a] == 0x05, "C08: RXParamSetupAns expected at this position");
+                    crate::vcheck!(ans[a] == 0x05, "C08: RXParamSetupAns expected at this position");
                     let st = ans[a + 1];
-                    assert!(st & 0xF8 == 0, "C08: RXParamSetupAns RFU bits");
+                    crate::vcheck!(st & 0xF8 == 0, "C08: RXParamSetupAns RFU bits");
                     if !rt::freq_in_band(&mut region0, freq) {
-                        assert!(st & 1 == 0, "C08: RXParamSetupReq with an out-of-band RX2 frequency must be rejected");
+                        crate::vcheck!(st & 1 == 0, "C08: RXParamSetupReq with an out-of-band RX2 frequency must be rejected");
                     }
                     if r2 != 15 && !defined_dr(&region0, r2) {
-                        assert!(st & 2 == 0, "C08: RXParamSetupReq with an undefined RX2 data rate must be rejected");
+                        crate::vcheck!(st & 2 == 0, "C08: RXParamSetupReq with an undefined RX2 data rate must be rejected");
                     }
                     if region0.rx1_dr_offset_validate(off).is_none() {
-                        assert!(st & 4 == 0, "C08: RXParamSetupReq with an RX1 offset beyond the regional maximum must be rejected");
+                        crate::vcheck!(st & 4 == 0, "C08: RXParamSetupReq with an RX1 offset beyond the regional maximum must be rejected");
                     }
                     if st == 7 {
                         exp_cfg.rx2_frequency = Some(freq);
@@ -243,9 +244,9 @@ fn macs_step(ri: usize, cids: &[u8]) {
             }
             0x06 => {
                 if room && a + 3 <= 15 && a + 3 <= ans.len() {
-                    assert!(ans[a] == 0x06, "C08: DevStatusAns expected at this position");
+                    crate::vcheck!(ans[a] == 0x06, "C08: DevStatusAns expected at this position");
                     if snr >= -32 && snr <= 31 {
-                        assert!(ans[a + 2] == (snr as u8) & 0x3f, "C08: DevStatusAns margin is the 6-bit SNR");
+                        crate::vcheck!(ans[a + 2] == (snr as u8) & 0x3f, "C08: DevStatusAns margin is the 6-bit SNR");
                     }
                     a += 3;
                 } else {
@@ -255,7 +256,7 @@ fn macs_step(ri: usize, cids: &[u8]) {
             0x08 => {
                 let del = data[pl] & 0x0f;
                 if room && a + 1 <= 15 && a + 1 <= ans.len() {
-                    assert!(ans[a] == 0x08, "C08: RXTimingSetupAns expected at this position");
+                    crate::vcheck!(ans[a] == 0x08, "C08: RXTimingSetupAns expected at this position");
                     a += 1;
                 } else {
                     room = false;
@@ -266,8 +267,8 @@ fn macs_step(ri: usize, cids: &[u8]) {
             0x07 | 0x0A => {
                 if !fixed {
                     if room && a + 2 <= 15 && a + 2 <= ans.len() {
-                        assert!(ans[a] == cid, "C08: NewChannelAns / DlChannelAns expected at this position");
-                        assert!(ans[a + 1] & 0xFC == 0, "C08: answer RFU bits");
+                        crate::vcheck!(ans[a] == cid, "C08: NewChannelAns / DlChannelAns expected at this position");
+                        crate::vcheck!(ans[a + 1] & 0xFC == 0, "C08: answer RFU bits");
                         a += 2;
                     } else {
                         room = false;
@@ -280,18 +281,18 @@ fn macs_step(ri: usize, cids: &[u8]) {
         ci += 1;
     }
     if room {
-        assert!(ans.len() == a, "C08: no answers beyond one per handled request");
+        crate::vcheck!(ans.len() == a, "C08: no answers beyond one per handled request");
     }
-    assert!(ans.len() <= 15, "C08: pending answers never exceed 15 bytes");
+    crate::vcheck!(ans.len() <= 15, "C08: pending answers never exceed 15 bytes");
     // effects on the MAC configuration: exactly what the fully-acknowledged requests commanded
     if room {
-        assert!(mc::cfg_same(&cfg, &exp_cfg), "C08: the configuration must change exactly as the acknowledged requests command, and not at all for rejected ones");
+        crate::vcheck!(mc::cfg_same(&cfg, &exp_cfg), "C08: the configuration must change exactly as the acknowledged requests command, and not at all for rejected ones");
         if !has_channel_cmd(cids) {
             let mut b = 0;
             while b < 9 {
                 let got = rt::mask_bank(&mut region, b);
                 if fixed || b < 2 {
-                    assert!(got == exp_mask[b], "C08: the channel mask must be exactly the commanded one after an acknowledged LinkADRReq, and unchanged otherwise");
+                    crate::vcheck!(got == exp_mask[b], "C08: the channel mask must be exactly the commanded one after an acknowledged LinkADRReq, and unchanged otherwise");
                 }
                 b += 1;
             }
